@@ -6,7 +6,7 @@ From NDN Require Import Base.Prelude Model.TlvVar Model.Name Model.Tlv Model.Pac
   Proofs.BytesLemmas Proofs.TlvVarProofs Proofs.TlvSplit Proofs.TlvRoundtrip Proofs.TlvRoundtrip2 Proofs.TlvMore
   Proofs.PacketRoundtrip Proofs.SignedPortionProofs Proofs.PtrsSpecView Proofs.PtrsSplit Proofs.PtrsData Proofs.PtrsAccept.
 Local Open Scope N_scope.
-Set Default Timeout 60.
+Set Default Timeout 900.
 Arguments N.of_nat : simpl never.
 Arguments N.to_nat : simpl never.
 
